@@ -2,17 +2,19 @@ mod desc;
 mod engine;
 mod fmts;
 mod gen;
+mod lexgen;
 mod pipes;
 mod plan;
 mod printer;
 mod props;
 mod strgen;
+mod wf;
 
 use engine::*;
 use std::path::PathBuf;
 
 fn registry() -> Vec<&'static Prop> {
-    vec![&props::c01::PROP, &props::c03::PROP, &props::c09::PROP, &props::c10::PROP, &props::c04::PROP, &props::c06::PROP, &props::c07::PROP, &props::c08::PROP]
+    vec![&props::c01::PROP, &props::c02::PROP, &props::c05::PROP, &props::c12::PROP, &props::c03::PROP, &props::c09::PROP, &props::c10::PROP, &props::c04::PROP, &props::c06::PROP, &props::c07::PROP, &props::c08::PROP]
 }
 
 fn main() {
